@@ -853,7 +853,7 @@ class Gen:
             # powers of two only: every value stays the exactly scaled float
             return {"op": k, "i": i, "q": q_of(r.choice([Fraction(2), Fraction(-1), Fraction(1, 2), Fraction(4), Fraction(1), Fraction(-2)])), "qform": qform}
         if dec and k == "shift":
-            return {"op": "shift", "i": i, "q": q_of(0), "qform": qform}
+            return {"op": "shift", "i": i, "q": q_of(0), "qform": "int" if self.int_times(o) else qform}
         if dec and k == "setbuf":
             dtf = float(o.times[1] - o.times[0])
             return {"op": "setbuf", "i": i, "lead": q_of(frac(r.choice([0, 1, 3, 5, 10]) * dtf)), "trail": q_of(frac(r.choice([0, 2, 3, 6]) * dtf))}
